@@ -10,6 +10,7 @@ mod common;
 mod driver;
 mod framework;
 mod registry;
+mod scen_agg;
 mod scen_queue;
 
 fn main() {
